@@ -36,9 +36,16 @@ func variantsFor(root, prop string) []variant {
 			continue
 		}
 		var meta struct {
+			Property string   `json:"property"`
 			CaughtBy []string `json:"caught_by"`
 		}
 		if json.Unmarshal(b, &meta) != nil {
+			continue
+		}
+		// a seeded change must be reported by the check of the property it was written against; that a neighbouring
+		// property's rules happen to report it too is recorded by tools/pmatrix.py, not demanded here (the neighbour's
+		// rules may legitimately stop seeing it when they are re-stated)
+		if meta.Property != prop {
 			continue
 		}
 		for _, p := range meta.CaughtBy {
